@@ -159,7 +159,6 @@ Qed.
 Section A.
 Variable f : format.
 Hypothesis OK : fmt_ok f = true.
-Hypothesis EW2 : 2 <= ewidth f.     (* at least one normal binade; part of [rfmt_ok] *)
 
 Local Notation ms := (MANTISSA_SIZE f).
 
@@ -308,6 +307,8 @@ Proof.
 Qed.
 
 (** ** 3. The characterisation for a bit pattern *)
+
+Hypothesis EW2 : 2 <= ewidth f.     (* at least one normal binade; part of [rfmt_ok] *)
 
 (** a non-negative finite pattern is the encoding of its decoded pair, which is valid *)
 Lemma finite_pattern_pair x :
